@@ -1144,6 +1144,29 @@ static void fam_c18_purge(G& g, Plan& p) {
     P.ops.push_back(mk(OP_purge_check, -1, 1, (uint64_t)rounds, w1 * (uint64_t)rounds));
     return;
   }
+  // segfree: pages of a segment are freed in two batches with the segment's own purge in between, then nothing of the segment is left: it goes back
+  // to its arena partly committed, and what is still committed has to be purged by the arena (after its delay) through ordinary activity
+  if (W != 1 && delay >= 0 && g.chance(0.35)) {
+    P.ops.clear();
+    if (g.chance(0.5)) set_env(p, "ARENA_EAGER_COMMIT", g.pick({0, 1}));
+    int n = 6 + (int)g.below(8);
+    for (int i = 0; i < n; i++) P.ops.push_back(mk(OP_malloc, i, 1 * MiB + g.below(2 * MiB)));
+    const int first = 2 + (int)g.below((uint64_t)n - 3);
+    for (int i = 0; i < first; i++) { Op o = mk(OP_free, i); o.flags = OPF_WATCH; P.ops.push_back(o); }
+    uint64_t sw = (uint64_t)delay + (uint64_t)ext * (uint64_t)(n + 4) + 2;
+    P.ops.push_back(mk(OP_advance, -1, sw + g.below(5)));
+    { Op o = mk(OP_free, first); o.flags = OPF_WATCH; P.ops.push_back(o); }      // page-level activity: the segment purges what has expired
+    if (g.chance(0.5)) P.ops.push_back(mk(OP_advance, -1, sw + g.below(5)));
+    for (int i = first + 1; i < n; i++) { Op o = mk(OP_free, i); o.flags = OPF_WATCH; P.ops.push_back(o); }
+    uint64_t aw = (uint64_t)delay * (uint64_t)mult + sw + 2;
+    int rounds = 3;
+    for (int r = 0; r < rounds; r++) {
+      P.ops.push_back(mk(OP_advance, -1, aw + g.below(5)));
+      P.ops.push_back(mk(OP_collect, -1, 0));      // (no allocation here: it would take the freed arena block again, which ends the obligation)
+    }
+    P.ops.push_back(mk(OP_purge_check, -1, 1 | 4, (uint64_t)rounds, aw * (uint64_t)rounds));
+    return;
+  }
   // scattered: many pages of one segment, a random subset is freed (the others stay live in between, so the freed spans do not
   // coalesce and lie all over the segment's 4 MiB commit-mask words); every one of them has to be purged
   if (W == 0 && delay >= 0 && g.chance(0.45)) {
@@ -1239,6 +1262,28 @@ static void fam_c03_align(G& g, Plan& p) {
         if (o.code == OP_calloc_aligned_at) { o.a = 1; o.b = req; o.c = al; o.d = off; }
         if (g.chance(0.2)) o.hslot = 0;
         P.ops.push_back(o);
+      }
+    }
+    P.ops.push_back(mk(OP_verify_all));
+    return;
+  }
+  if (g.chance(0.12)) {
+    // the smallest classes: requests of up to 8 bytes come from the 8-byte class, in which only every other block is 16-byte aligned; the aligned
+    // entry points (allocation and re-allocation, shrinking from a larger block or starting from NULL) must still deliver the alignment asked for
+    p.nslots = 200; int sl = 0;
+    for (int rd = 0; rd < 3; rd++) {
+      int warm = (int)g.below(7);
+      for (int i = 0; i < warm && sl < 190; i++) P.ops.push_back(mk(OP_malloc, sl++, 1 + g.below(8)));
+      int n = 6 + (int)g.below(20);
+      for (int i = 0; i < n && sl < 195; i++) {
+        size_t al = g.pick<size_t>({16, 16, 16, 32, 8}); size_t nsz = 1 + g.below(g.chance(0.7) ? 8 : 16); size_t off = g.pick<size_t>({0, 0, 16, 32});
+        int v = (int)g.below(8);
+        if (v < 2) { P.ops.push_back(mk(OP_malloc, sl, 40 + g.below(100))); P.ops.push_back(mk(g.chance(0.5) ? OP_realloc_aligned : OP_rezalloc_aligned, sl++, nsz, al)); }       // shrink by more than half: moves
+        else if (v < 3) { P.ops.push_back(mk(OP_malloc, sl, 40 + g.below(100))); P.ops.push_back(mk(OP_realloc_aligned_at, sl++, nsz, al, off)); }
+        else if (v < 5) { if (g.chance(0.5)) P.ops.push_back(mk(OP_realloc_aligned, sl++, nsz, al)); else P.ops.push_back(mk(OP_recalloc_aligned, sl++, 1 + g.below(2), nsz / 2 + 1, al)); }   // from NULL (recalloc: count, size, alignment)
+        else if (v < 6) P.ops.push_back(mk(OP_realloc_aligned_at, sl++, nsz, al, off));
+        else if (v < 7) P.ops.push_back(mk(OP_malloc_aligned, sl++, nsz, al));
+        else P.ops.push_back(mk(OP_malloc, sl++, 1 + g.below(8)));
       }
     }
     P.ops.push_back(mk(OP_verify_all));
@@ -1453,7 +1498,17 @@ static void fam_c05_realloc(G& g, Plan& p) {
     else if (x < 40) P.ops.push_back(gen_free(g, slot));
     else if (x < 44) P.ops.push_back(mk(OP_collect, -1, g.below(2)));
     else if (x < 48) { Op o = mk(OP_reallocn, slot, SIZE_MAX / 2 + g.below(1000), 2 + g.below(8)); P.ops.push_back(o); }                   // overflowing count*size: must fail, block untouched
-    else if (x < 50) { int w = (int)g.below(3); Op o = mk(w == 0 ? OP_recalloc : w == 1 ? OP_reallocarray : OP_reallocarr, slot, (uint64_t)1 << 40, (uint64_t)1 << 40); o.hslot = -1; P.ops.push_back(o); }      // count*size overflows: must fail and leave the block (and the caller's pointer) alone
+    else if (x < 50) { int w = (int)g.below(3); Op o = mk(w == 0 ? OP_recalloc : w == 1 ? OP_reallocarray : OP_reallocarr, slot, (uint64_t)1 << 40, (uint64_t)1 << 40); o.hslot = -1; P.ops.push_back(o); }
+    else if (x < 54 && with_faults) {
+      // the C++ entry points: the OS refuses, the installed new_handler frees memory up (the simulated OS heals), the retry inside mi_new_realloc(n)
+      // must still be a re-allocation (contents carried over, old block released)
+      size_t sz = g.chance(0.5) ? 3 * MiB + g.below(60 * MiB) : gen_size(g, mix | SM_LARGE);
+      Op o = g.chance(0.6) ? mk(OP_new_realloc, slot, sz) : mk(OP_new_reallocn, slot, 1 + g.below(4), sz / 4);
+      o.flags |= OPF_NEW_HANDLER | OPF_MAY_FAIL;
+      OpFault f; f.kind = OS_MMAP; f.nth = 0; f.persistent = true; o.faults.push_back(f);
+      OpFault f2; f2.kind = OS_MPROTECT_RW; f2.nth = 0; f2.persistent = true; o.faults.push_back(f2);
+      P.ops.push_back(o);
+    }      // count*size overflows: must fail and leave the block (and the caller's pointer) alone
     else {
       Op o = gen_realloc(g, slot, mix, nh, true);
       if (with_faults && g.chance(0.15)) { OpFault f; f.kind = OS_MMAP; f.nth = 0; f.persistent = false; o.faults.push_back(f); o.flags |= OPF_MAY_FAIL; if (g.chance(0.5)) { OpFault f2; f2.kind = OS_MPROTECT_RW; f2.nth = 0; o.faults.push_back(f2); } }
@@ -1839,6 +1894,24 @@ static void fam_c14_arena(G& g, Plan& p) {
 // C15: arena-bound heaps and exclusive arenas
 // ---------------------------------------------------------------------------------
 static void fam_c15_arenas(G& g, Plan& p) {
+  if (g.chance(0.1)) {
+    // edge: donated memory of exactly 64 (or 128) arena blocks, so that the in-use bitmap has no spare bits behind the last block, filled with
+    // multi-block objects until the free tail is shorter than the next request: the answer must be NULL, never memory past the end
+    p.nslots = 40; p.progs.resize(1); Program& P = p.progs[0];
+    const size_t blocks = g.pick<size_t>({64, 64, 128});
+    P.ops.push_back(mk(OP_manage_arena, 0, blocks * 32 * MiB, (g.chance(0.6) ? 1 : 0) | (g.chance(0.7) ? 2 : 0) | (g.chance(0.3) ? 4 : 0), 0));     // segment-aligned start: no block is lost to alignment; often committed (nothing stops a block that runs past the end); mostly exclusive; mostly not zero
+    P.ops.push_back(mkh(OP_heap_new_in_arena, 0, 0));
+    int n = 8 + (int)g.below(14);
+    for (int i = 0; i < n; i++) {
+      if (g.chance(0.2)) { P.ops.push_back(mk(OP_free, (int)g.below(30))); continue; }
+      size_t sz = g.chance(0.6) ? (3 + g.below(25)) * 32 * MiB - g.below(20 * MiB) : 40 * MiB + g.below(120 * MiB);
+      Op o = mk(OP_malloc, (int)g.below(30), sz); o.hslot = 0; o.flags = OPF_MAY_FAIL | OPF_NO_FILL; P.ops.push_back(o);
+    }
+    p.nslots = 80;
+    for (int i = 0; i < 45; i++) { Op o = mk(OP_malloc, 30 + i, (3 + g.below(12)) * 32 * MiB - g.below(8 * MiB)); o.hslot = 0; o.flags = OPF_MAY_FAIL | OPF_NO_FILL; P.ops.push_back(o); }   // more than fits: the tail gets shorter than the requests
+    P.ops.push_back(mk(OP_verify_all));
+    return;
+  }
   if (g.chance(0.4)) set_env(p, "ABANDONED_RECLAIM_ON_FREE", 1);
   if (g.chance(0.3)) set_env(p, "MAX_SEGMENT_RECLAIM", 100);
   if (g.chance(0.15)) set_env(p, "DISALLOW_ARENA_ALLOC", 1);
@@ -1925,6 +1998,27 @@ static void fam_c15_reclaim_route(G& g, Plan& p) {
 // C17: hardened builds detect misuse
 // ---------------------------------------------------------------------------------
 static void fam_c17_misuse(G& g, Plan& p) {
+  if (g.chance(0.12)) {
+    // the first free comes from another thread (the block waits in its page's list of remotely freed blocks, possibly behind others), the
+    // second one from the owner before it has collected that list: a double free of a thread-local block like any other
+    p.nslots = 64; p.progs.resize(2); p.cfg.spurious_p = 0;
+    Program& P = p.progs[0]; Program& Q = p.progs[1];
+    auto bs = bin_sizes(); size_t b = bs[6 + g.below(38)]; size_t req = g.padded ? b - 8 : b;      // 64 .. 8 KiB
+    int k = 3 + (int)g.below(6);
+    for (int i = 0; i < k; i++) P.ops.push_back(mk(OP_malloc, i, req));
+    // (the very first remote free into a page takes another route - the owning heap's delayed list, encoded with other keys - where a second
+    // free is not recognisable; that block is therefore never the victim)
+    int victim = (int)g.below((uint64_t)k - 2);
+    Q.ops.push_back(mk(OP_free, k - 2));
+    { Op o = mk(OP_free, victim); o.flags = OPF_ZOMBIE; Q.ops.push_back(o); }
+    int more = (int)g.below((uint64_t)k - 2);      // further remote frees pile up behind it
+    for (int i = 0, j = 0; i < k - 2 && j < more; i++) if (i != victim) { Q.ops.push_back(mk(OP_free, i)); j++; }
+    P.ops.push_back(mk(OP_spawn, 1)); P.ops.push_back(mk(OP_join, 1));
+    { Op o = mk(OP_double_free, -1, 0, 2); P.ops.push_back(o); }      // fire
+    for (int i = 0; i < 6; i++) P.ops.push_back(mk(OP_malloc, 20 + i, req));
+    P.ops.push_back(mk(OP_verify_all));
+    return;
+  }
   int nt = g.chance(0.35) ? 2 : 1;
   p.nslots = 200; p.progs.resize((size_t)nt);
   p.cfg.spurious_p = 0;
